@@ -43,6 +43,7 @@ type FuncContract struct {
 	Assumed  bool // contract on a dependency: never an obligation
 	Trusted  bool // body not verified (stated in evidence)
 	Panics   *Clause
+	PanicEns []Clause // `panic ensures e`: holds when the function exits by its own panic (after its deferred calls)
 	Loops    map[int]*LoopSpec
 	Ats      []AtSpec
 	Props    []string
@@ -116,7 +117,7 @@ type ContractDB struct {
 }
 
 var clauseKeywords = map[string]bool{"func": true, "iface": true, "requires": true, "ensures": true, "modifies": true,
-	"nopanic": true, "inline": true, "pure": true, "panics": true, "loop": true, "prop": true, "pred": true,
+	"nopanic": true, "inline": true, "pure": true, "panics": true, "panic": true, "loop": true, "prop": true, "pred": true,
 	"uf": true, "at": true, "assumed": true, "trusted": true, "expect": true, "math": true, "fresh": true,
 	"axiom": true, "ghost": true, "havoc": true, "alias": true, "end": true,
 	"ghostfield": true, "define": true, "view": true, "ghostscalar": true, "deterministic": true, "globalinv": true, "preserves": true, "sweep": true, "unboxnonnil": true, "assumepre": true, "iterates": true, "yields": true, "effects": true}
@@ -343,6 +344,11 @@ func (db *ContractDB) parseContractFile(path, pkgPath string, prefix string, ass
 				cur.Alias = rest
 			case "expect":
 				cur.Expect = rest
+			case "panic":
+				if !strings.HasPrefix(rest, "ensures ") {
+					return fmt.Errorf("%s: expected `panic ensures <expr>`", src)
+				}
+				cur.PanicEns = append(cur.PanicEns, Clause{strings.TrimSpace(strings.TrimPrefix(rest, "ensures ")), label, src})
 			case "panics":
 				r := strings.TrimSpace(strings.TrimPrefix(rest, "when"))
 				cur.Panics = &Clause{r, label, src}
